@@ -233,6 +233,9 @@ fn two_setters(vals: &[Vec<u8>]) -> i32 {
     });
     wptr.armed.store(true, Ordering::SeqCst);
     h1.set_new_spec(spec_of(aa, da));
+    // if the window was never entered (an implementation that does not consult the writers on this
+    // path), release the second thread now: dropping the sender ends its recv()
+    drop(wptr.go.lock().unwrap().take());
     t2.join().ok();
     // observe the final spec through enabled() on plain targets and the facade's gate
     let rank = |target: &str| {
@@ -256,22 +259,35 @@ fn two_setters(vals: &[Vec<u8>]) -> i32 {
     // The deterministic window (inside reconfigure) did not show it. Schedule points that lie
     // *between two lock acquisitions* cannot be forced through the public API: race two real
     // threads for a bounded time and check the same post-condition after every round.
-    let deadline = std::time::Instant::now() + std::time::Duration::from_secs(6);
+    // Specifications padded with many switched-off dummy modules decide identically for the observed
+    // targets and have the same maximum level, but make max_level() / clone() slow enough that two
+    // racing calls overlap reliably.
+    let big_spec_of = |a: u64, d: u64| {
+        let mut b = LogSpecification::builder();
+        b.default(filter_of(d)).module("a", filter_of(a));
+        for i in 0..20000 {
+            b.module(format!("zz::pad{i}"), LevelFilter::Off);
+        }
+        b.build()
+    };
+    let deadline = std::time::Instant::now() + std::time::Duration::from_secs(25);
     let mut rounds = 0u64;
     while std::time::Instant::now() < deadline {
         rounds += 1;
-        let (logger2, h1) = Logger::with(spec_of(0, 0)).do_not_log().build().expect("build");
+        // start every round from the initial specification of the counterexample
+        let (logger2, h1) = Logger::with(big_spec_of(r[0], r[1])).do_not_log().build().expect("build");
         let h2 = h1.clone();
         let barrier = Arc::new(std::sync::Barrier::new(2));
         let b2 = Arc::clone(&barrier);
-        let sb = spec_of(ab, db);
+        let sb = big_spec_of(ab, db);
+        let sa = big_spec_of(aa, da);
         let t = std::thread::spawn(move || {
             b2.wait();
             h2.set_new_spec(sb);
             std::mem::forget(h2);
         });
         barrier.wait();
-        h1.set_new_spec(spec_of(aa, da));
+        h1.set_new_spec(sa);
         t.join().ok();
         let rank2 = |target: &str| {
             let mut r = 0;
@@ -440,6 +456,46 @@ fn ts_listing_short_name(_vals: &[Vec<u8>]) -> i32 {
     }
 }
 
+
+/// c16_try_from_bare_name: a FileSpec derived from a bare file name (relative, no directory) must
+/// denote that file and a writer built from it must work: build, write one record, find it there.
+fn try_from_bare_name() -> i32 {
+    use flexi_logger::writers::FileLogWriter;
+    use flexi_logger::FileSpec;
+    let dir = std::env::temp_dir().join(format!("verif_replay_barename_{}", std::process::id()));
+    let _ = std::fs::remove_dir_all(&dir);
+    std::fs::create_dir_all(&dir).unwrap();
+    std::env::set_current_dir(&dir).unwrap();
+    let code = match FileSpec::try_from("name.log") {
+        Err(e) => {
+            println!("REPRODUCED: try_from(\"name.log\") rejected: {e}");
+            1
+        }
+        Ok(fs) => match FileLogWriter::builder(fs).try_build() {
+            Err(e) => {
+                println!("REPRODUCED: a writer cannot be built from FileSpec::try_from(\"name.log\"): {e}");
+                1
+            }
+            Ok(flw) => {
+                let mut now = DeferredNow::new();
+                flw.write(&mut now, &log::Record::builder().level(Level::Info).target("t").args(format_args!("hello")).build()).unwrap();
+                flw.shutdown();
+                let content = std::fs::read_to_string(dir.join("name.log")).unwrap_or_default();
+                if content.contains("hello") {
+                    println!("record found in ./name.log");
+                    0
+                } else {
+                    println!("REPRODUCED: the record is not in ./name.log");
+                    1
+                }
+            }
+        },
+    };
+    let _ = std::env::set_current_dir("/");
+    let _ = std::fs::remove_dir_all(&dir);
+    code
+}
+
 fn main() {
     let args: Vec<String> = std::env::args().collect();
     if args.len() < 3 {
@@ -455,6 +511,7 @@ fn main() {
         "highest_index_gz" => highest_index_gz(&vals),
         "foreign_listing" => foreign_listing(&args[2]),
         "ts_listing_short_name" => ts_listing_short_name(&vals),
+        "try_from_bare_name" => try_from_bare_name(),
         other => {
             eprintln!("unknown replayer {other}");
             3
